@@ -212,6 +212,24 @@ def check(res, rule="PY-TAINT"):
                                SANITISER.get(raw.get(name, "key"), "_to_key")), path=[]))
             if mname in READS:
                 for call, role, tr in t.sanitised:
+                    if role == "key" and _absence_handler(tr, mname):
+                        # the handler must cover the conversion only: a
+                        # TypeError raised by a key comparison of the search
+                        # has to reach the caller
+                        for b in tr.body:
+                            for c in ast.walk(b):
+                                if isinstance(c, ast.Call) and _san_call(c) is None:
+                                    res.findings.add(dict(
+                                        rule=rule, function=where, file=REL, line=c.lineno,
+                                        construct="absence handler of %s also covers %s" % (
+                                            fn.name, pyfront.unparse(c.func)),
+                                        detail="the `except TypeError` that turns an "
+                                               "unusable key into absence encloses %s as "
+                                               "well: a TypeError raised by a key "
+                                               "comparison during the search is answered "
+                                               "with absence instead of reaching the "
+                                               "caller (the C type propagates it)" %
+                                               pyfront.unparse(c)[:60], path=[]))
                     if role == "key" and not _absence_handler(tr, mname):
                         res.findings.add(dict(
                             rule=rule, function=where, file=REL, line=call.lineno,
